@@ -1,6 +1,7 @@
 CONSTANTS
   Subs = {1, 2}
   RegisterBeforeInit = FALSE
+  Streaming = {}
 INIT Init
 NEXT Next
 INVARIANTS TypeOK NoDataRace AtMostOnce NobodyStuck GoodEnd
